@@ -158,12 +158,17 @@ def _alone_child(op):
 
 
 def _history_child(calls):
+    from ..parser_standin import shim
+
     sb = ops.Sandbox("c23")
     try:
         SIM.reset(seed=0)
         out = []
         for i, op in enumerate(calls):
+            pf = op.get("parse_fault")
+            shim.arm_parse_fault(pf["at"], pf["kind"]) if pf else shim.arm_parse_fault()
             out.append(ops.execute_op(op, sb, i))
+        shim.arm_parse_fault()
         return out
     finally:
         sb.cleanup()
@@ -203,6 +208,8 @@ def _names_defined(script):
 def judge(calls, got):
     viols = []
     for i, (op, oc) in enumerate(zip(calls, got)):
+        if op.get("parse_fault"):
+            continue        # this call was made to fail inside the parser call; what is judged is every call after it
         ref = alone(op)
         d = ops.diff_outcomes(ref, oc, compare_messages=True)
         if not d and ref[0] == "exc" and (ref[5], ref[6]) != (oc[5], oc[6]):
@@ -228,7 +235,7 @@ def task_histories(task):
             if any(n and n in sc for tup in defined for n in tup):
                 nontrivial = True
             defined |= _names_defined(sc)
-        out.append({"hid": hid, "n": len(calls), "nontrivial": nontrivial,
+        out.append({"hid": hid, "n": len(calls), "nontrivial": nontrivial, "pf": any(op.get("parse_fault") for op in calls),
                     "viols": [{"invariant": inv, "observed": obs, "signature": dict(sig, invariant=inv),
                                "scenario": {"calls": calls}, "digest": ""} for (inv, obs, sig) in viols],
                     "sample": [(c["api"], (c.get("script") or "")[:70]) for c in calls] if hid % 97 == 0 else None})
@@ -294,10 +301,20 @@ def run(ctx):
             hist.append((h, [rng.choice(ws) for _ in range(k)]))
         else:
             hist.append((h, [rng.choice(pool) for _ in range(k)]))
+    # fault injection at the parser seam: a call whose parse() raises (allocation failure / interrupt inside the
+    # native call), immediately followed by the same call fault-free, and then by whatever the history had next
+    n_pf = 0
+    for hi, (h, calls) in enumerate(hist):
+        if rng.random() < 0.3 and len(calls) < 60:
+            j = rng.randrange(len(calls))
+            faulted = dict(calls[j], parse_fault={"at": rng.choice([1, 1, 2]), "kind": rng.choice(["memerr", "memerr", "kbdint"])})
+            hist[hi] = (h, calls[:j] + [faulted] + calls[j:])
+            n_pf += 1
     distinct = {}
     for _h, calls in hist:
         for op in calls:
-            distinct.setdefault(_key(op), op)
+            if not op.get("parse_fault"):
+                distinct.setdefault(_key(op), op)
     items = sorted(distinct.items())
     chunk = 10
     ad = ctx.map("task_alone", [{"ops": items[i:i + chunk]} for i in range(0, len(items), chunk)], budget_s=ctx.budget_s * 0.4)
@@ -315,12 +332,13 @@ def run(ctx):
         tasks.append({"histories": part, "alone": {k: amap[k] for k in keys if k in amap}})
     done = ctx.map("task_histories", tasks, budget_s=ctx.budget_s * 0.5, min_tasks=24)
     violations, samples = [], []
-    n_eval = n_calls = n_nontrivial = 0
+    n_eval = n_calls = n_nontrivial = n_pf_run = 0
     for _t, res in done:
         for r in res:
             n_eval += 1
             n_calls += r["n"]
             n_nontrivial += int(r["nontrivial"])
+            n_pf_run += int(r.get("pf", False))
             if r["sample"] and len(samples) < 3:
                 samples.append(r["sample"])
             violations += r["viols"]
@@ -342,8 +360,9 @@ def run(ctx):
                 "some call mentions a ruleset/operator name that an earlier call of the same history defined.",
         "samples": samples or [{"note": "none"}],
         "api_calls": n_calls, "distinct_calls_with_pristine_reference": len(amap),
+        "histories_with_a_fault_injected_inside_the_parser_call": n_pf_run,
+        "fault_kinds_fired": {"parser_call_memerr_or_interrupt": n_pf_run},
         "tasks_skipped_by_budget": getattr(ctx, "last_skipped", 0),
-        "fault_kinds_fired": {},
     }
     return {"level": "exploration", "coverage": coverage, "violations": reps,
             "assumptions": [
